@@ -661,10 +661,10 @@ package xmpp
 
 //@ func (*lockWriteCloser).EncodeToken
 //@   callsite EncodeToken#1
-//@     assert[C10] !outClosed(lwc.w.state) && lwc.err == nil
+//@     assert[C05,C10] !outClosed(lwc.w.state) && lwc.err == nil
 //@     assert[C05] arg0 == lwc.w.out.e && arg1 == t
 //@   ensures[C10] old(lwc.err) == nil && outClosed(old(lwc.w.state)) ==> result == ErrOutputStreamClosed
-//@   ensures[C10] old(lwc.err) != nil ==> result == old(lwc.err)
+//@   ensures[C05,C10] old(lwc.err) != nil ==> result == old(lwc.err)
 
 //@ func (*lockWriteCloser).Flush
 //@   callsite Flush#1
